@@ -259,6 +259,38 @@ impl Family for BinaryWith {
     }
 }
 
+/// every `stride`-th program T of a base family inside two frames that isolate one fact about T: `eps & T` (empty
+/// exactly when T does not contain the empty string) and `T & (eps + r)` for a one-character range r (what T does on
+/// strings of length <= 1). A wrong nullable flag or first-character shortcut deep inside T that leaves T itself
+/// non-empty shows here as a wrong emptiness verdict.
+pub struct EpsProbe {
+    pub base: Box<dyn Family>,
+    pub stride: usize,
+    pub range: (u8, u8),
+}
+impl Family for EpsProbe {
+    fn name(&self) -> String {
+        format!("eps-probes(eps & T, T & opt(r{}{})) over every {}th program of {}", self.range.0, self.range.1, self.stride, self.base.name())
+    }
+    fn universe(&self) -> &Universe {
+        self.base.universe()
+    }
+    fn len(&self) -> usize {
+        2 * ((self.base.len() + self.stride - 1) / self.stride)
+    }
+    fn get(&self, i: usize) -> P {
+        let t = Rc::new(self.base.get((i / 2) * self.stride));
+        if i % 2 == 0 {
+            P::Inter(Rc::new(P::Eps), t)
+        } else {
+            P::Inter(t, Rc::new(P::Opt(Rc::new(P::Rng(self.range.0, self.range.1)))))
+        }
+    }
+    fn include(&self, i: usize) -> bool {
+        self.base.include((i / 2) * self.stride)
+    }
+}
+
 /// an explicit list
 pub struct ListFamily {
     pub name: String,
@@ -624,6 +656,66 @@ pub fn comp_over_level2() -> CompOverLevel2 {
 
 /// states with many explicit intervals: unions of two-letter words with distinct first letters over twelve adjacent
 /// single characters (universe 3), alone and under the usual operators
+/// a short word next to a pattern with two (or three) rigid blocks between Sigma*: the union constructor's subsumption
+/// test must not match two blocks on overlapping (or the same) characters of the word, nor out of order
+pub fn overlap_frames() -> ListFamily {
+    let u = Universe::new(0);
+    let r = |l: u8, h: u8| Rc::new(P::Rng(l, h));
+    let all = Rc::new(P::All);
+    // blocks: sequences of 1..2 range atoms over {a, b, [a-b]}
+    let atoms = [r(1, 1), r(2, 2), r(1, 2)];
+    let mut blocks: Vec<Vec<Rc<P>>> = vec![];
+    for x in &atoms {
+        blocks.push(vec![x.clone()]);
+        for y in &atoms[..2] {
+            blocks.push(vec![x.clone(), y.clone()]);
+        }
+    }
+    // words: sequences of 1..3 letters over {a, b}
+    let letters = [r(1, 1), r(2, 2)];
+    let mut words: Vec<Vec<Rc<P>>> = vec![];
+    for x in &letters {
+        words.push(vec![x.clone()]);
+        for y in &letters {
+            words.push(vec![x.clone(), y.clone()]);
+            for z in &letters {
+                words.push(vec![x.clone(), y.clone(), z.clone()]);
+            }
+        }
+    }
+    let cat = |v: Vec<Rc<P>>| -> Rc<P> {
+        if v.len() == 1 {
+            v[0].clone()
+        } else {
+            Rc::new(P::ConcatL(v))
+        }
+    };
+    let mut items = vec![];
+    for b1 in &blocks {
+        for b2 in &blocks {
+            let mut pat: Vec<Rc<P>> = vec![all.clone()];
+            pat.extend(b1.iter().cloned());
+            pat.push(all.clone());
+            pat.extend(b2.iter().cloned());
+            pat.push(all.clone());
+            let pat = Rc::new(P::ConcatL(pat));
+            for w in &words {
+                let w = cat(w.clone());
+                items.push(P::Union(w.clone(), pat.clone()));
+                items.push(P::Union(pat.clone(), w.clone()));
+            }
+            // the pattern itself (its derivatives build unions of its own suffixes), and anchored variants
+            items.push((*pat).clone());
+            let mut anch: Vec<Rc<P>> = b1.clone();
+            anch.push(all.clone());
+            anch.extend(b2.iter().cloned());
+            anch.push(all.clone());
+            items.push(P::Union(cat(b1.clone()), Rc::new(P::ConcatL(anch))));
+        }
+    }
+    ListFamily { name: "overlap frames/u0 (word + Sigma* block Sigma* block Sigma*, blocks of 1-2 ranges, words of 1-3 letters)".into(), u, items, shallow: 0 }
+}
+
 pub fn many_ranges() -> ListFamily {
     let u = Universe::new(3);
     let ch = |i: u8| Rc::new(P::Rng(i, i)); // regions 1..=12 are the letters
